@@ -153,41 +153,45 @@ Definition itr_get_gen (whole_elem : bool) (F : fops) (it : itr) : option (list 
 
 Definition itr_get := itr_get_gen true.
 
-(* rtosc_arg_val_itr_next *)
-Definition itr_next (it : itr) : option itr :=
+(* rtosc_arg_val_itr_next, first half: "increase the range index" *)
+Definition next_range (it : itr) : option itr :=
   match av it with
   | [] => None
   | s :: rest =>
-      let it1 :=
-        if slot_type s =? 45 then
-          match s with
-          | SRep n hd =>
-              let ri := range_i it + 1 in
-              if (ri >=? n) && negb (n =? 0) then
-                if negb (hd =? 0) then Some (mk_itr (tl rest) (idx it + 2) 0)
-                else Some (mk_itr rest (idx it + 1) 0)
-              else Some (mk_itr (av it) (idx it) ri)
+      if slot_type s =? 45 then
+        match s with
+        | SRep n hd =>
+            let ri := range_i it + 1 in
+            if (ri >=? n) && negb (n =? 0) then
+              if negb (hd =? 0) then Some (mk_itr (tl rest) (idx it + 2) 0)
+              else Some (mk_itr rest (idx it + 1) 0)
+            else Some (mk_itr (av it) (idx it) ri)
+        | _ => None
+        end
+      else Some it
+  end.
+
+(* second half: "if not inside a range (or at its beginning), increase the index" *)
+Definition next_plain (it1 : itr) : option itr :=
+  if range_i it1 =? 0 then
+    match av it1 with
+    | [] => None
+    | s1 :: rest1 =>
+        if slot_type s1 =? 97 then
+          match s1 with
+          | SArr _ len =>
+              if len <? 0 then None
+              else Some (mk_itr (skipn (Z.to_nat len) rest1) (idx it1 + len + 1) 0)
           | _ => None
           end
-        else Some it in
-      match it1 with
-      | None => None
-      | Some it1 =>
-          if range_i it1 =? 0 then
-            match av it1 with
-            | [] => None
-            | s1 :: rest1 =>
-                if slot_type s1 =? 97 then
-                  match s1 with
-                  | SArr _ len =>
-                      if len <? 0 then None
-                      else Some (mk_itr (skipn (Z.to_nat len) rest1) (idx it1 + len + 1) 0)
-                  | _ => None
-                  end
-                else Some (mk_itr rest1 (idx it1 + 1) 0)
-            end
-          else Some it1
-      end
+        else Some (mk_itr rest1 (idx it1 + 1) 0)
+    end
+  else Some it1.
+
+Definition itr_next (it : itr) : option itr :=
+  match next_range it with
+  | None => None
+  | Some it1 => next_plain it1
   end.
 
 (* ---- libc --------------------------------------------------------------- *)
